@@ -318,11 +318,34 @@ Fixpoint renumber (ls : list (bool * list nat)) (i : idx) : option idx :=
       | _, _ => None end
   | _, _ => None
   end.
+(* wave 3b: an index list may name an index several times; the entry stored at that index then appears at EVERY position
+   of the list that names it (numpy / the dense class return the row once per repetition).  positions_from k x l = the
+   positions (counted from k) at which l holds x, ascending; renumber_all = every subscript of the result an entry lands on
+   (first kept mode slowest: the order in which the repaired __getitem__ expands the filtered rows, mode by mode);
+   select = the source position a result subscript reads. *)
+Fixpoint positions_from (k x : nat) (l : list nat) : list nat :=
+  match l with
+  | [] => []
+  | y :: r => if Nat.eqb x y then k :: positions_from (S k) x r else positions_from (S k) x r
+  end.
+Fixpoint renumber_all (ls : list (bool * list nat)) (i : idx) : list idx :=
+  match ls, i with
+  | [], [] => [[]]
+  | (kept, l) :: ls', x :: i' =>
+      flat_map (fun k => map (fun r => if kept then k :: r else r) (renumber_all ls' i')) (positions_from 0 x l)
+  | _, _ => []
+  end.
+Fixpoint select (ls : list (bool * list nat)) (j : idx) : idx :=
+  match ls with
+  | [] => []
+  | (true, l) :: ls' => nth (hd 0 j) l 0 :: select ls' (tl j)
+  | (false, l) :: ls' => hd 0 l :: select ls' j
+  end.
+Definition region_sel_all (ls : list (bool * list nat)) (es : list (idx * V)) : list (idx * V) :=
+  flat_map (fun e : idx * V => map (fun j => (j, snd e)) (renumber_all ls (fst e))) es.
 Definition sp_region_get (S : sparse V) (es : list kelem) : option (sparse V) :=
   match region_lists (sshape S) es with
-  | Some ls =>
-      let sel := flat_map (fun e : idx * V => match renumber ls (fst e) with Some j => [(j, snd e)] | None => [] end) (entries S) in
-      Some (of_entries (kept_shape ls) sel)
+  | Some ls => Some (of_entries (kept_shape ls) (region_sel_all ls (entries S)))
   | None => None
   end.
 
